@@ -23,7 +23,7 @@ ASSUMPTIONS = [
 ]
 MONITORS = "independent walk of the workspace (bytes, directories, exec bits) after apply; second compare's action lists; onerror recorder; audit-hook log of removals"
 REQUIRED_COUNTERS = [
-    "priors_with_symlink_to_directory", "same_index_histories", "two_cache_targets", "implicit_parent_targets", "unavailable_directory_object_cases", "applies", "kind_swap_cases", "nested_dir_deletions", "lazy_targets", "explicit_targets", "delete_off_cases",
+    "targets_handed_as_view", "root_key_file_targets", "priors_with_symlink_to_directory", "same_index_histories", "two_cache_targets", "implicit_parent_targets", "unavailable_directory_object_cases", "applies", "kind_swap_cases", "nested_dir_deletions", "lazy_targets", "explicit_targets", "delete_off_cases",
     "unavailable_source_cases", "second_compares", "exec_entries_checked", "link/hardlink", "link/symlink", "link/copy",
 ]
 
@@ -191,6 +191,14 @@ def run_shard(ctx):
 
             old = indexlab.workspace_index(ws)
             new = target()
+            as_view = (not implicit_parents) and rng.random() < 0.25
+            if as_view:
+                # the target is handed over as a filtered view that lets everything through (as dvc does)
+                from dvc_data.index import view as _view
+
+                new = _view(new, lambda k_: True)
+                res.count("targets_handed_as_view")
+                cfg["as_view"] = True
             if dir_unavailable:
                 dp = cache.oid_to_path(indexlab.dir_oid(T, lazy_at)[0])
                 os.chmod(dp, 0o644)
@@ -394,7 +402,64 @@ def run_shard(ctx):
             env.reset_staging()
             ctx.drop(d)
 
+        def root_file(case=case, rng=rng):
+            """the target is a single file whose entry sits at the index's root key; the checkout path currently is a directory, a file or nothing"""
+            from dvc_data.hashfile.hash_info import HashInfo
+            from dvc_data.hashfile.meta import Meta
+            from dvc_data.index import DataIndex, DataIndexEntry, ObjectStorage
+
+            d = ctx.fresh("rf")
+            link = rng.choice(["copy", "copy", "hardlink", "symlink"])
+            cache = env.local_odb(os.path.join(d, "cache"), type=[link])
+            data = gen.small_content(rng) + b"root-file"
+            indexlab.save_tree_to_cache(ctx, cache, {("f",): data}, d)
+            ws = os.path.join(d, "ws", "target")
+            os.makedirs(os.path.dirname(ws))
+            prior = rng.choice(["directory", "directory", "nested-directory", "file", "nothing", "same-file"])
+            if prior == "directory":
+                gen.write_tree(ws, {("a",): b"x", ("b",): b"y"})
+            elif prior == "nested-directory":
+                gen.write_tree(ws, {("a",): b"x", ("sub", "deep", "c"): b"z"}, {("empty",)})
+            elif prior == "file":
+                with open(ws, "wb") as f:
+                    f.write(b"other content")
+            elif prior == "same-file":
+                with open(ws, "wb") as f:
+                    f.write(data)
+            idx = DataIndex()
+            idx.storage_map.add_cache(ObjectStorage(key=(), odb=cache))
+            idx[()] = DataIndexEntry(key=(), meta=Meta(size=len(data)), hash_info=HashInfo("md5", H("md5", data)))
+            # the target has an entry at the root key, so the workspace side describes the path itself by an entry at () as well
+            from dvc_data.index import FileStorage
+            from dvc_data.index.build import build_entries, build_entry
+
+            old = DataIndex()
+            old.storage_map.add_data(FileStorage((), fs, ws))
+            if os.path.lexists(ws):
+                root_e = build_entry(ws, fs, compute_hash=True)
+                root_e.key = ()
+                old.add(root_e)
+                if os.path.isdir(ws):
+                    for e_ in build_entries(ws, fs, compute_hash=True):
+                        old.add(e_)
+            cfg = {"root_key_file_target": True, "prior": prior, "link": link}
+            res.evaluated()
+            res.count("applies")
+            res.count("root_key_file_targets")
+            res.nontrivial("root-file", prior, link, data)
+            res.sample(cfg)
+            errs = []
+            apply(compare(old, idx, delete=True), ws, fs, update_meta=rng.random() < 0.5, storage="cache", onerror=lambda s_, dst, e: errs.append((dst, type(e).__name__)), links=[link])
+            ok_ = os.path.isfile(ws) and open(ws, "rb").read() == data
+            if not ok_ and not errs:
+                res.violation(f"target-file-missing/root-key-file-over-{prior}", f"the single-file target was not created over a prior {prior} and nothing was reported", case=case, detail=cfg)
+            elif not ok_:
+                res.violation(f"target-file-missing/root-key-file-over-{prior}/reported", f"the single-file target was not created over a prior {prior}: {errs[:2]}", case=case, detail=cfg)
+            ctx.drop(d)
+
         if case % 8 == 5:
             ctx.guard(case, history)
+        elif case % 16 == 9:
+            ctx.guard(case, root_file)
         else:
             ctx.guard(case, one)
